@@ -56,6 +56,9 @@ fn inputs(branches: &[&[&str]]) -> Vec<String> {
         for c in a.chars() { let s = c.to_string(); if !chars.contains(&s) && chars.len() < 3 { chars.push(s); } }
     }}
     chars.push("z".to_string());
+    // foreign chars of 3 and 4 bytes: a scan loop that steps over whole chars must step by the right width
+    chars.push("\u{20ac}".to_string());
+    if chars.len() < 6 { chars.push("\u{1f600}".to_string()); }
     let mut v = strings_upto(&chars, 4);
     units.truncate(5);
     v.extend(strings_upto(&units, 3));
